@@ -47,6 +47,36 @@ func (th *Thread) representative(s *StrVal, abstractDigits bool) (string, bool) 
 	return string(out), anyNZ
 }
 
+// classRepresentative case-splits every symbolic byte over the given
+// characters; a byte equal to none of them is represented by other.
+func (th *Thread) classRepresentative(s *StrVal, chars []byte, other byte) string {
+	if s.hasToken() {
+		th.st.abort("number parsing of an opaque string")
+	}
+	out := make([]byte, len(s.e))
+	for i, x := range s.e {
+		b := x.(*Term)
+		if b.IsConst() {
+			out[i] = byte(b.c)
+			continue
+		}
+		guards := make([]*Term, len(chars)+1)
+		none := tTrue
+		for k, c := range chars {
+			guards[k] = mkEq(b, mkBV(8, uint64(c)))
+			none = mkAnd(none, mkNot(guards[k]))
+		}
+		guards[len(chars)] = none
+		d := th.st.choose(len(chars)+1, guards, "num-class")
+		if d == len(chars) {
+			out[i] = other
+		} else {
+			out[i] = chars[d]
+		}
+	}
+	return string(out)
+}
+
 func registerNumParse(e *Engine) {
 	reg := func(name string, f Intrinsic) { e.intrinsics[name] = f }
 	reg("strconv.ParseInt", func(th *Thread, fn *ssa.Function, a []Value) Value {
@@ -65,8 +95,10 @@ func registerNumParse(e *Engine) {
 			th.st.note("strconv.ParseInt(base 10): value abstracted to an arbitrary integer")
 			return Tuple{v, nilError()}
 		}
-		// other bases: fully concrete representative
-		rep, _ := th.representative(a[0].(*StrVal), false)
+		// other bases: every byte is case-split over the characters the number
+		// syntax distinguishes (digits, hex letters, base prefixes, underscore,
+		// signs); any other byte is represented by '?'
+		rep := th.classRepresentative(a[0].(*StrVal), []byte("0123456789abcdefABCDEFxXoO_+-"), '?')
 		n, err := strconv.ParseInt(rep, int(base.Int()), int(bits.Int()))
 		if err != nil {
 			return Tuple{mkInt(64, n), mkErrorValue(th, "strconv.ParseInt: "+err.Error())}
